@@ -474,7 +474,7 @@ impl Sub for Rejections {
         "rejections"
     }
     fn rule(&self) -> &'static str {
-        "Background::new on valid dyadic frequencies (must be accepted) and on frequencies made invalid by a negative entry, an entry > 1, NaN, or a sum off by > 1e-3 (must be rejected); Background::from_counts incl. all-zero counts; FrequencyMatrix::new on rows summing to 1 within 0.005 (accepted) or off by > 0.02 (rejected); non-trivial = a rejection path is expected"
+        "Background::new on valid dyadic frequencies (must be accepted) and on frequencies made invalid by a negative entry, an entry > 1, NaN, or a sum off by > 1e-3 (must be rejected); Background::from_counts incl. all-zero counts; FrequencyMatrix::new on rows summing to 1 within 0.005 (accepted) or off by > 0.02, or holding a NaN / infinite cell (rejected); non-trivial = a rejection path is expected"
     }
     fn cases(&self, tier: Tier) -> u64 {
         tier.pick(30_000, 600_000)
@@ -505,11 +505,19 @@ impl Sub for Rejections {
                 });
                 let counts = proptest::collection::vec(prop_oneof![3 => Just(0u32), 1 => 0u32..50], k);
                 let rows = proptest::collection::vec(
-                    (proptest::collection::vec(1u32..100, k), prop_oneof![3 => Just(0.0f32), 1 => Just(0.004f32), 1 => Just(-0.004f32), 1 => Just(0.03f32), 1 => Just(-0.03f32), 1 => Just(0.5f32)]).prop_map(
-                        |(w, off)| {
+                    (proptest::collection::vec(1u32..100, k), prop_oneof![6 => Just(0.0f32), 2 => Just(0.004f32), 2 => Just(-0.004f32), 2 => Just(0.03f32), 2 => Just(-0.03f32), 2 => Just(0.5f32), 1 => Just(f32::NAN), 1 => Just(f32::INFINITY), 1 => Just(f32::NEG_INFINITY)], 0usize..k).prop_map(
+                        move |(w, off, at)| {
                             let tot: u32 = w.iter().sum();
                             let mut r: Vec<Fl> = w.iter().map(|&x| Fl(x as f32 / tot as f32)).collect();
-                            r[0] = Fl(r[0].0 + off);
+                            if off.is_finite() {
+                                r[0] = Fl(r[0].0 + off);
+                            } else {
+                                // a cell that is not a number at all: NaN, or +inf next to -inf (the row sum is NaN), or a lone infinity
+                                r[at] = Fl(off);
+                                if off == f32::NEG_INFINITY {
+                                    r[(at + 1) % k] = Fl(f32::INFINITY);
+                                }
+                            }
                             r
                         },
                     ),
@@ -575,7 +583,9 @@ impl Sub for Rejections {
                     for (i, r) in rows.iter().enumerate() { for (j, x) in r.iter().enumerate() { dm[i][j] = x.0; } }
                     let dev: Vec<f64> = rows.iter().map(|r| (r.iter().map(|x| x.0 as f64).sum::<f64>() - 1.0).abs()).collect();
                     let res = FrequencyMatrix::<A>::new(dm);
-                    if dev.iter().any(|&d| d > 0.02) {
+                    // a row sum that is not a number (or infinite) does not "sum to one" either
+                    if dev.iter().any(|&d| d > 0.02 || !d.is_finite()) {
+                        info.class_if(dev.iter().any(|d| !d.is_finite()), "frequency-row-with-NaN-or-inf");
                         info.nontrivial = true;
                         info.class("frequency-rejection");
                         if res.is_ok() { Some(Failure::new("FrequencyMatrix::new:accepts-invalid", format!("row sums deviate by {:?} but the matrix is accepted", dev))) } else { None }
